@@ -79,3 +79,27 @@ Theorem C06_walk_main : forall s es rel,
 Proof. exact walk_C06_main. Qed.
 Theorem C06_oracle_implies_walk : forall c, ok_C06 c = true -> walk_C06 c = true.
 Proof. exact ok_C06_walk. Qed.
+
+(** C06_main: for every valid set-up and EVERY valid event list the COMPLETE
+    oracle ok_C06 accepts the model's own trace - the walk above and the liveness
+    half: on every steady history (one port that is not master-only, instance not
+    slave-only; one master ranked better than the own clock by priority1 with a
+    grandmaster other than the own clock, announcing at least once before every
+    BMCA run with consecutive sequence ids modulo 2^16 - so also across
+    65535 -> 0 - and no TLVs; nothing else happens) every BMCA run from the second
+    Announce on leaves the port slave of that master with parentDS pointing at
+    it.  The proof keeps the master's stored Announces as a block (newest last
+    with the last announced sequence id, the last two adjacent, ages sorted and
+    below the cut-off), shows that registration, the take / put-back of the best
+    message and ageing keep it with at least two entries at every judged run,
+    and evaluates the single-port BMCA run (selection, Figure 34 by priority1,
+    decision S1). *)
+From SV Require Import Port.MainC06b.
+Theorem C06_main : forall s es rel,
+  setup_valid s -> Forall event_valid es ->
+  exists i o, init s = Ok (i, o) /\ ok_C06 (mkCase s es rel (Some o) (run i es)) = true.
+Proof. exact ok_C06_model. Qed.
+Theorem C06_steady_main : forall s es rel,
+  setup_valid s -> Forall event_valid es ->
+  exists i o, init s = Ok (i, o) /\ steady_ok (mkCase s es rel (Some o) (run i es)) = true.
+Proof. exact steady_ok_model. Qed.
